@@ -54,6 +54,28 @@ def check_graph(vertices, succ):
         return f"toposort({g}) = {one}, but {len(want)} orderings exist", len(want)
     if one is not None and tuple(one) not in set(want):
         return f"toposort({g}) = {one} is not a topological ordering", len(want)
+    # operation history on ONE graph object (vertices in reverse key order, two vertices sharing one successor-set object
+    # when they have equal successors): single ordering, all orderings, single ordering again; the graph must be left
+    # untouched and every answer must be the same as on a fresh copy
+    shared = {}
+    h = {}
+    for v in sorted(g, reverse=True):
+        key = tuple(sorted(g[v]))
+        h[v] = shared.setdefault(key, set(g[v]))
+    before = {v: set(s) for v, s in h.items()}
+    try:
+        one1 = toposort(h)
+        all1 = toposort_all(h)
+        one2 = toposort(h)
+    except Exception as exc:
+        return f"raised {type(exc).__name__}: {exc} on the second use of one graph object {g}", len(want)
+    if {v: set(s) for v, s in h.items()} != before:
+        return f"the caller's graph {before} was modified into {h}", len(want)
+    if sorted(tuple(x) for x in all1) != want:
+        return f"toposort_all after toposort on the same graph object {g}: {len(all1)} orderings, expected {len(want)}", len(want)
+    for tag, o in (("first", one1), ("second", one2)):
+        if (o is None) != (not want) or (o is not None and tuple(o) not in set(want)):
+            return f"{tag} toposort on one graph object {g} = {o}; valid orderings: {want[:3]}", len(want)
     return None, len(want)
 
 
@@ -89,6 +111,8 @@ def run_shard(shard, tier, seed):
         if not samples and nedges:
             samples.append({"vertices": list(V), "succ": [[v, sorted(succ.get(v, ()))] for v in V]})
 
+    if shard["mode"] == "graph" and shard["n"] == 1 and shard["part"][0] == 0:
+        handle([], {}, "digraph")      # the null graph: exactly one (empty) ordering
     if shard["mode"] == "graph":
         n = shard["n"]
         part, k = shard["part"]
